@@ -78,14 +78,40 @@ func c18Guards(e *Env) {
 		}
 	}
 
-	r.Rule("C18.rename-guard", "DCS", "Rename tests the target before os.Rename", 1)
+	r.Rule("C18.rename-guard", "RC", "Rename tests the target before os.Rename", 1)
 	if rename != nil {
 		n := 0
+		ff := e.Facts(rename)
 		for _, ci := range ir.CallsIn(rename, func(c *ssa.CallCommon) bool { return ir.IsCallTo(c, "os.Rename", "os.Link") }) {
 			n++
-			lits := e.DCS(ci)
-			r.Check(existsLit(lits, ci.Common().Args[1], false), "DAGStore.Rename: os.Rename only when the target does not exist", e.InstrPos(ci),
-				"renaming a DAG onto the name of an existing DAG silently replaces that DAG's definition", e.FactsStr("dominating conditions: ", lits))
+			// the guard may be disjunctive (`new != old && exists(new)` refuses):
+			// every way of reaching the rename must carry !exists(target) or target == source
+			src, dst := ci.Common().Args[0], ci.Common().Args[1]
+			dnf, ok := ir.ReachingCondition(rename.Blocks[0], ci.Block(), 32)
+			if !ok {
+				r.Unknown("DAGStore.Rename: os.Rename only when the target does not exist", e.InstrPos(ci), "reaching condition too large to decide")
+				continue
+			}
+			good := len(dnf) > 0
+			var bad []string
+			for _, cj := range dnf {
+				for _, conj := range ff.ExpandDNFRegion(rename.Blocks[0], []ir.Lit(cj)) {
+					lits := ir.NormalizeAll(conj)
+					same := false
+					for _, l := range lits {
+						if l.Kind == "cmp" && l.Op == token.EQL &&
+							((SameValue(l.X, src) && SameValue(l.Y, dst)) || (SameValue(l.X, dst) && SameValue(l.Y, src))) {
+							same = true // renaming a file onto itself replaces nothing
+						}
+					}
+					if !existsLit(lits, dst, false) && !same {
+						good = false
+						bad = append(bad, "{"+strings.Join(e.RenderN(lits), " ; ")+"}")
+					}
+				}
+			}
+			r.Check(good, "DAGStore.Rename: os.Rename only when the target does not exist", e.InstrPos(ci),
+				"renaming a DAG onto the name of an existing DAG silently replaces that DAG's definition", "unguarded ways to reach the rename: "+strings.Join(bad, " | "))
 		}
 		if n == 0 {
 			r.Unknown("DAGStore.Rename: rename site", e.Pos(rename.Pos()), "no os.Rename found")
@@ -101,8 +127,19 @@ func c18Guards(e *Env) {
 				spec = p
 			}
 		}
+		// write sites: file-mutating library calls in UpdateSpec itself and calls of
+		// repository helpers that reach one through static calls (e.g. an atomic-write helper)
 		for _, ci := range ir.CallsIn(update, func(c *ssa.CallCommon) bool {
-			return ir.IsCallTo(c, append([]string{"os.OpenFile", "os.Rename", "os.CreateTemp", "(*os.File).Write"}, truncatingWrites...)...)
+			if isFileMutation(c) {
+				return true
+			}
+			sc := c.StaticCallee()
+			if sc == nil || !e.P.Funcs[sc] || strings.HasSuffix(ir.CalleeName(c), "internal/dag.LoadYAML") {
+				return false
+			}
+			return e.reachesStatic(sc, func(f *ssa.Function) bool {
+				return len(ir.CallsIn(f, isFileMutation)) > 0
+			})
 		}) {
 			n++
 			lits := e.DCS(ci)
@@ -125,38 +162,152 @@ func c18Guards(e *Env) {
 			r.Unknown("UpdateSpec: write site", e.Pos(update.Pos()), "no file-writing call found")
 		}
 
-		r.Rule("C18.atomic-save", "VF", "final location is not written in place", 1)
-		// loc := d.fileLocation(name)
-		isLoc := func(v ssa.Value) bool {
-			ex, ok := ir.Resolve(v).(*ssa.Extract)
-			if !ok {
-				return false
-			}
-			c, ok := ex.Tuple.(*ssa.Call)
-			return ok && strings.HasSuffix(ir.CalleeName(&c.Call), ".fileLocation")
+		c18AtomicSave(e, update, spec)
+	}
+}
+
+var fileMutations = append([]string{"os.OpenFile", "os.Rename", "os.CreateTemp", "(*os.File).Write", "(*os.File).WriteString", "(*os.File).Truncate", "os.Truncate"}, truncatingWrites...)
+
+func isFileMutation(c *ssa.CallCommon) bool { return ir.IsCallTo(c, fileMutations...) }
+
+// reachesStatic: pred holds for f or a repository function reachable from it
+// through static calls (closures included).
+func (e *Env) reachesStatic(from *ssa.Function, pred func(*ssa.Function) bool) bool {
+	seen := map[*ssa.Function]bool{}
+	var visit func(f *ssa.Function) bool
+	visit = func(f *ssa.Function) bool {
+		if f == nil || seen[f] || !e.P.Funcs[f] {
+			return false
 		}
-		inPlace, renamed := false, false
-		var site ssa.Instruction
-		for _, ci := range ir.CallsIn(update, func(c *ssa.CallCommon) bool { return true }) {
-			switch {
-			case ir.IsCallTo(ci.Common(), truncatingWrites...) && isLoc(ci.Common().Args[0]):
-				inPlace, site = true, ci
-			case ir.IsCallTo(ci.Common(), "os.OpenFile") && isLoc(ci.Common().Args[0]):
-				inPlace, site = true, ci
-			case ir.IsCallTo(ci.Common(), "os.Rename") && isLoc(ci.Common().Args[1]):
-				renamed = true
-				if site == nil {
-					site = ci
+		seen[f] = true
+		for _, g := range ir.WithClosures(f) {
+			if pred(g) {
+				return true
+			}
+			for _, ci := range ir.CallsIn(g, func(c *ssa.CallCommon) bool { return c.StaticCallee() != nil }) {
+				if visit(ci.Common().StaticCallee()) {
+					return true
 				}
 			}
 		}
-		pos := e.Pos(update.Pos())
-		if site != nil {
-			pos = e.InstrPos(site)
-		}
-		r.Check(!inPlace && renamed, "UpdateSpec: new text reaches the final location by rename, not by an in-place truncating write", pos,
-			"the definition is truncated and rewritten in place: a crash (or a full disk) between the truncate and the last write leaves an empty or partial definition")
+		return false
 	}
+	return visit(from)
+}
+
+// staticClosure lists from and the repository functions it reaches through static calls.
+func (e *Env) staticClosure(from *ssa.Function) []*ssa.Function {
+	var out []*ssa.Function
+	e.reachesStatic(from, func(f *ssa.Function) bool { out = append(out, f); return false })
+	return out
+}
+
+// c18AtomicSave: the new text reaches the definition's final location by a
+// rename of a separately written file, never by a truncating write in place.
+func c18AtomicSave(e *Env, update *ssa.Function, spec ssa.Value) {
+	r := e.R
+	r.Rule("C18.atomic-save", "VF", "final location is not written in place", 1)
+	noLoc := func(f *ssa.Function) bool { return e.P.Funcs[f] && !strings.HasSuffix(f.Name(), "fileLocation") }
+	up := func(f *ssa.Function) []ssa.CallInstruction {
+		if f == update {
+			return nil
+		}
+		return e.StaticCallSites(f)
+	}
+	// exact: the value IS the location (no path arithmetic followed)
+	exact := &ir.Tracer{C: e.C, Through: map[string]bool{}, Descend: noLoc, Up: up}
+	// derived: assembled from ...
+	derived := &ir.Tracer{C: e.C, Through: withThrough("(*os.File).Name"), Descend: noLoc, Up: up}
+	isLoc := func(v ssa.Value) bool {
+		ls := exact.Trace(v)
+		if len(ls) == 0 {
+			return false
+		}
+		for _, l := range ls {
+			if !(l.Kind == "call" && strings.HasSuffix(l.Name, ".fileLocation")) {
+				return false
+			}
+		}
+		return true
+	}
+	fromCall := func(tr *ir.Tracer, v ssa.Value, names ...string) *ssa.Call {
+		for _, l := range tr.Trace(v) {
+			if c, ok := l.V.(*ssa.Call); ok && l.Kind == "call" && ir.IsCallTo(&c.Call, names...) {
+				return c
+			}
+		}
+		return nil
+	}
+	fromSpec := func(v ssa.Value) bool {
+		for _, l := range exact.Trace(v) {
+			if l.Kind == "param" && l.V == spec {
+				return true
+			}
+		}
+		return false
+	}
+	inPlace := false
+	var site ssa.Instruction
+	var renameSites []ssa.CallInstruction
+	tmpCreate := map[ssa.CallInstruction]*ssa.Call{}
+	writtenTo := map[*ssa.Call]ssa.CallInstruction{} // creation call of a file the spec is written to -> the write
+	for _, f := range e.staticClosure(update) {
+		for _, ci := range ir.CallsIn(f, func(c *ssa.CallCommon) bool { return true }) {
+			c := ci.Common()
+			switch {
+			case ir.IsCallTo(c, truncatingWrites...) && isLoc(c.Args[0]):
+				inPlace, site = true, ci
+			case ir.IsCallTo(c, "os.OpenFile") && isLoc(c.Args[0]):
+				inPlace, site = true, ci
+			case ir.IsCallTo(c, "os.Rename") && isLoc(c.Args[1]):
+				renameSites = append(renameSites, ci)
+				tmpCreate[ci] = fromCall(derived, c.Args[0], "os.CreateTemp", "os.Create", "os.OpenFile")
+			case ir.IsCallTo(c, "(*os.File).Write", "(*os.File).WriteString") && fromSpec(c.Args[1]):
+				if cr := fromCall(exact, c.Args[0], "os.CreateTemp", "os.Create", "os.OpenFile"); cr != nil {
+					writtenTo[cr] = ci
+				}
+			}
+		}
+	}
+	pos := e.Pos(update.Pos())
+	if site != nil {
+		pos = e.InstrPos(site)
+	} else if len(renameSites) > 0 {
+		pos = e.InstrPos(renameSites[0])
+	}
+	r.Check(!inPlace && len(renameSites) > 0, "UpdateSpec: new text reaches the final location by rename, not by an in-place truncating write", pos,
+		"the definition is truncated and rewritten in place: a crash (or a full disk) between the truncate and the last write leaves an empty or partial definition")
+	if !inPlace {
+		// every file renamed into place is one the spec was written to, and the rename happens only after that write succeeded
+		for _, rs := range renameSites {
+			cr := tmpCreate[rs]
+			w := writtenTo[cr]
+			okWrite := cr != nil && w != nil
+			okAfter := false
+			if okWrite {
+				for _, l := range e.DCS(rs) {
+					if l.Kind == "cmp" && l.Op == token.EQL && ir.IsNilConst(l.Y) {
+						if ex, ok := ir.Resolve(l.X).(*ssa.Extract); ok && ex.Tuple == ssa.Value(w.(*ssa.Call)) {
+							okAfter = true
+						}
+					}
+				}
+			}
+			r.Check(okWrite && okAfter, "UpdateSpec: the file renamed into place is the temporary file the new text was completely written to", e.InstrPos(rs),
+				"the definition is replaced by a file that does not (yet) hold the complete new text: the rename is not dominated by a successful write of the spec to that same file")
+		}
+	}
+}
+
+func withThrough(extra ...string) map[string]bool {
+	m := map[string]bool{}
+	for k, v := range ir.StringThrough {
+		m[k] = v
+	}
+	for _, x := range extra {
+		m[x] = true
+	}
+	return m
 }
 
 func c18Order(e *Env) {
